@@ -1416,3 +1416,77 @@ func TestVerifReplay(t *testing.T) {
 `
 	return "runtime", "valuenotifier", src, true
 }
+
+// ---------- C16 (worker pool) ----------
+func init() { replayGens["c16"] = replayC16 }
+
+func replayC16(o *Obligation) (string, string, string, bool) {
+	if !strings.HasPrefix(o.Name, "workerpool.") {
+		return "", "", "", false
+	}
+	src := `package workerpool
+
+import (
+	"sync"
+	"sync/atomic"
+	"testing"
+	"time"
+)
+
+// oracle: (1) group aggregation - a group's PendingChildrenCounter is the number of its direct children (pools
+// and sub-groups) with pending work; (2) every accepted task runs exactly once and Shutdown followed by waiting for
+// ShutdownComplete terminates, with submitters racing against Shutdown (bounded stress, interleaving not forced).
+func TestVerifReplay(t *testing.T) {
+	// (1)
+	root := NewGroup("root")
+	sub := root.CreateGroup("sub")
+	subsub := sub.CreateGroup("subsub")
+	pool := subsub.CreatePool("p", WithWorkerCount(1))
+	release := make(chan struct{})
+	started := make(chan struct{})
+	pool.Submit(func() { close(started); <-release })
+	<-started
+	if r, s, ss := root.PendingChildrenCounter.Get(), sub.PendingChildrenCounter.Get(), subsub.PendingChildrenCounter.Get(); r != 1 || s != 1 || ss != 1 {
+		t.Fatalf("REPLAY-VIOLATION with one busy pool three levels down the pending-children counters are root=%d sub=%d subsub=%d, want 1 1 1", r, s, ss)
+	}
+	close(release)
+	pool.PendingTasksCounter.WaitIsZero()
+	if r, s, ss := root.PendingChildrenCounter.Get(), sub.PendingChildrenCounter.Get(), subsub.PendingChildrenCounter.Get(); r != 0 || s != 0 || ss != 0 {
+		t.Fatalf("REPLAY-VIOLATION after the pool went idle the pending-children counters are root=%d sub=%d subsub=%d, want 0 0 0", r, s, ss)
+	}
+	root.Shutdown()
+	// (2)
+	for iter := 0; iter < 400; iter++ {
+		w := New("p", WithWorkerCount(2)).Start()
+		var stop atomic.Bool
+		var accepted, ran atomic.Int64
+		var wg sync.WaitGroup
+		for g := 0; g < 4; g++ {
+			wg.Add(1)
+			go func() {
+				defer wg.Done()
+				for !stop.Load() {
+					before := w.PendingTasksCounter.Get()
+					_ = before
+					w.Submit(func() { ran.Add(1) })
+					accepted.Add(1)
+				}
+			}()
+		}
+		time.Sleep(time.Duration(iter%7) * 20 * time.Microsecond)
+		w.Shutdown()
+		done := make(chan struct{})
+		go func() { w.ShutdownComplete.Wait(); close(done) }()
+		select {
+		case <-done:
+		case <-time.After(2 * time.Second):
+			stop.Store(true)
+			t.Fatalf("REPLAY-VIOLATION submitters racing with Shutdown (iteration %d): waiting for ShutdownComplete did not return within 2s; pending counter %d, queue size %d (a counted task was pushed after the dispatcher had left its loop)", iter, w.PendingTasksCounter.Get(), w.Queue.Size())
+		}
+		stop.Store(true)
+		wg.Wait()
+	}
+}
+`
+	return "runtime", "workerpool", src, true
+}
